@@ -119,6 +119,16 @@ static char c18_file_object[8];
 static double nn_double(void) { double d = nondet_double(); ASSUME(d == d); return d; }
 static double bounded_double(void) { double d = nondet_double(); ASSUME(d >= -XBOUND && d <= XBOUND); return d; }
 static double small_int_double(void) { uint8_t k = nondet_u8(); return (double)k; }
+#ifdef C18_WIDE     /* multiples of 2^26 up to +-2^33: ranges on both sides of 2^32 with few variable bits */
+static double int8_double(void) { int k = nondet_u8(); return (double)(k - 128) * 67108864.0; }
+#else
+static double int8_double(void) { int k = nondet_u8(); return (double)(k - 128); }
+#endif
+#if (defined(C18_SMALLVALS) || defined(C18_WIDE)) && !defined(C18_FULLVALS)
+#define C18_VALMODE 2
+#else
+#define C18_VALMODE 1
+#endif
 
 /* an arbitrary well-formed dataset: n samples, capacity cap >= n, min/max = extremes of the samples,
  * cookie/empty values from the REAL initialiser */
@@ -131,7 +141,7 @@ static void mk_dataset(struct cmb_dataset *ds, unsigned n, unsigned cap, int bou
     }
     for (unsigned i = 0; i < N + 1; i++) {
         if (i < n) {
-            const double x = bounded ? bounded_double() : nn_double();
+            const double x = (bounded == 2) ? int8_double() : bounded ? bounded_double() : nn_double();
             ds->xa[i] = x;
             if (x < ds->min) ds->min = x;
             if (x > ds->max) ds->max = x;
@@ -396,7 +406,7 @@ static void ts_case_assumptions(const struct cmb_timeseries *ts)
 void h_ts_median(void)
 {
     struct cmb_timeseries ts;
-    mk_timeseries(&ts, N, CAP, 1, 1);
+    mk_timeseries(&ts, N, CAP, C18_VALMODE, 1);
     ts_case_assumptions(&ts);
     double x[N], w[N];
     for (unsigned i = 0; i < N; i++) { x[i] = ts.ds.xa[i]; w[i] = ts.wa[i]; }
@@ -410,7 +420,7 @@ void h_ts_median(void)
 void h_ts_fivenum(void)
 {
     struct cmb_timeseries ts;
-    mk_timeseries(&ts, N, CAP, 1, 1);
+    mk_timeseries(&ts, N, CAP, C18_VALMODE, 1);
     ts_case_assumptions(&ts);
     double x[N], w[N];
     for (unsigned i = 0; i < N; i++) { x[i] = ts.ds.xa[i]; w[i] = ts.wa[i]; }
@@ -421,6 +431,15 @@ void h_ts_fivenum(void)
 }
 
 /* ======================================================================= O4 histograms */
+/* values for the histogram entries: -DC18_SMALLVALS = integers -128..127 (the float divider then has few
+ * variable bits and the queries finish); default = every non-NaN / bounded double (thorough tier) */
+#ifdef C18_SMALLVALS
+static double hist_value(void) { return int8_double(); }
+static double hist_limit(void) { return int8_double(); }
+#else
+static double hist_value(void) { return nn_double(); }
+static double hist_limit(void) { return bounded_double(); }
+#endif
 static void hist_obligations(const struct cmi_dataset_histogram *hp, unsigned nbins_inner, double total, double n_below, double n_above)
 {
     OBT("C18-O4", hp->num_bins == nbins_inner + 2u && __CPROVER_OBJECT_SIZE(hp->hbins) == (nbins_inner + 2u) * sizeof(double),
@@ -436,11 +455,11 @@ static void hist_obligations(const struct cmi_dataset_histogram *hp, unsigned nb
 void h_hist_fill(void)          /* create + fill, explicit range as the public wrapper passes it on */
 {
     double xa[N];
-    const double lo = bounded_double(), hi = bounded_double();
+    const double lo = hist_limit(), hi = hist_limit();
     ASSUME(lo < hi);
-    ASSUME(NB == 1 || (double)NB <= ceil(hi - lo));     /* established by cmb_dataset_histogram_print */
+    ASSUME(NB == 1 || hi - lo > (double)(NB - 1));      /* NB <= ceil(hi - lo): established by cmb_dataset_histogram_print */
     double below = 0.0, above = 0.0;
-    for (unsigned i = 0; i < N; i++) { xa[i] = nn_double(); if (xa[i] < lo) below += 1.0; if (xa[i] > hi) above += 1.0; }
+    for (unsigned i = 0; i < N; i++) { xa[i] = hist_value(); if (xa[i] < lo) below += 1.0; if (xa[i] > hi) above += 1.0; }
     struct cmi_dataset_histogram *hp = cmi_dataset_histogram_create(NB, lo, hi);
     cmi_dataset_histogram_fill(hp, N, xa);              /* bin index: CBMC bounds/pointer/conversion checks */
     hist_obligations(hp, NB, (double)N, below, above);
@@ -450,12 +469,12 @@ void h_hist_fill(void)          /* create + fill, explicit range as the public w
 void h_ts_hist_fill(void)       /* weighted fill: sample i counts with its duration; the last one has none */
 {
     double xa[N], wa[N];
-    const double lo = bounded_double(), hi = bounded_double();
+    const double lo = hist_limit(), hi = hist_limit();
     ASSUME(lo < hi);
-    ASSUME(NB == 1 || (double)NB <= ceil(hi - lo));
+    ASSUME(NB == 1 || hi - lo > (double)(NB - 1));
     double below = 0.0, above = 0.0, total = 0.0;
     for (unsigned i = 0; i < N; i++) {
-        xa[i] = nn_double();
+        xa[i] = hist_value();
         wa[i] = (i + 1u < N) ? small_int_double() : 0.0;
         total += wa[i];
         if (xa[i] < lo) below += wa[i];
@@ -485,7 +504,7 @@ void c18_hist_observer(const struct cmi_dataset_histogram *hp, FILE *fp)
 void h_hist_auto(void)          /* the public function, low_lim == high_lim: range taken from the data */
 {
     struct cmb_dataset ds;
-    mk_dataset(&ds, N, CAP, 1);
+    mk_dataset(&ds, N, CAP, C18_VALMODE);
 #if defined(C18_CONST_DATA)
     ASSUME(ds.min == ds.max);
 #elif defined(C18_WIDE)
@@ -503,7 +522,7 @@ void h_hist_auto(void)          /* the public function, low_lim == high_lim: ran
 void h_ts_hist_auto(void)
 {
     struct cmb_timeseries ts;
-    mk_timeseries(&ts, N, CAP, 1, 1);
+    mk_timeseries(&ts, N, CAP, C18_VALMODE, 1);
 #if defined(C18_CONST_DATA)
     ASSUME(ts.ds.min == ts.ds.max);
 #else
@@ -579,7 +598,7 @@ void h_ts_summarize(void)       /* C14-O3: (x_i, w_i), i < n-1, handed to the we
     mk_timeseries(&ts, N, CAP, 1, 0);
     struct cmb_wtdsummary ws;
     const uint64_t i = nondet_u64();
-    ASSUME(i + 1u < N || N == 1);
+    ASSUME(N == 1 || i < N - 1u);
     const uint64_t r = cmb_timeseries_summarize(&ts, &ws);
     OBT("C14-O3", c18_ws_inits == 1u, "cmb_timeseries_summarize: the summary is initialised first (existing content overwritten)");
     OBT("C14-O3", r == N - 1u && c18_ws_adds == N - 1u, "cmb_timeseries_summarize: n - 1 samples are summarised (the last has no duration yet)");
